@@ -140,7 +140,11 @@ def gen_case(rng, gen_t, exact):
     case = {'mode': rng.choice(['C', 'L']), 'init': init, 'edits': edits, 'edits2': edits2, 'form': rng.randrange(90),
             'save_via': rng.choice(['node', 'doc']), 'nest': rng.choice([0, 0, 1, 2]), 'exact': exact,
             # a save that fails inside a child of the node (then repaired and repeated), in round 1 or 2
-            'fault': rng.choice([0, 0, 0, 1, 2])}
+            'fault': rng.choice([0, 0, 0, 1, 2]),
+            # the caller edits through a list reference it kept, instead of asking node.transforms each time
+            'held': rng.random() < 0.35,
+            # (loaded) a forward instance_node below the node: 1 in its child node, 2 directly in it
+            'fwd': rng.choice([0, 0, 1, 2])}
     return case
 
 
@@ -458,6 +462,8 @@ def run(ctx):
     nests = {}
     twice = 0
     faulted = 0
+    heldn = 0
+    fwdn = 0
     edited = 0
     for c in cases:
         for t in c['init']:
@@ -466,6 +472,8 @@ def run(ctx):
         edited += 1 if c['edits'] else 0
         twice += 1 if c.get('edits2') else 0
         faulted += 1 if c.get('fault') else 0
+        heldn += 1 if c.get('held') else 0
+        fwdn += 1 if (c.get('fwd') and c['mode'] == 'L') else 0
         nests[str(c.get('nest', 0))] = nests.get(str(c.get('nest', 0)), 0) + 1
         if len(c['init']) + len(c['edits']) >= 2 or (c['init'] and c['init'][0][0] in ('rotate', 'lookat', 'matrix')):
             seen.add(core.canon_hash([c['mode'], c['init'], c['edits'], c.get('edits2')]))
@@ -483,7 +491,8 @@ def run(ctx):
                 'distinct = different (mode, transforms, edits)',
         'samples': [{'mode': c['mode'], 'init': c['init'], 'edits': c['edits'], 'observed': r['obs']}
                     for c, r in ex_cases[len(corpus_cases()):len(corpus_cases()) + 3]],
-        'distribution': {'transforms_by_kind': kinds, 'constructed_vs_loaded': modes, 'cases_with_edit_history': edited, 'cases_with_a_failed_save_repaired_and_repeated': faulted, 'cases_with_a_second_edit_history_after_the_first_save': twice,
+        'distribution': {'transforms_by_kind': kinds, 'constructed_vs_loaded': modes, 'cases_with_edit_history': edited, 'cases_with_a_failed_save_repaired_and_repeated': faulted, 'cases_editing_through_a_held_list_reference': heldn,
+                         'loaded_cases_with_a_forward_instance_node_below_the_node': fwdn, 'cases_with_a_second_edit_history_after_the_first_save': twice,
                          'node_is_root_child_librarynode': nests,
                          'integer_exact_cases': len(exact), 'float_cases': len(floats),
                          'integer_cases_rejected_by_magnitude_bound': rejected},
